@@ -108,7 +108,8 @@ class Driver:
         self.hooks = Hooks(monitors, proposal_budget=budget, clock=self.clock)
         self.s = None
         self.trace = []            # what actually happened, op by op
-        self.n_like_cap = n_like_cap or 60000
+        nb = int(self.cfg['n_batch'])
+        self.n_like_cap = n_like_cap or int(min(max(250 * nb, 2500), 30000))
         self.exc = None
 
     def _new_sampler(self, resume):
